@@ -7,8 +7,11 @@ GEN     Gen_Admission "pkt"/"short": header x body in {none, full, question cut 
         full cut} with the outcome for both values of "decodes" -> `admission replay`: every packet injected into a real
         dns.Server over an in-memory net.PacketConn, an in-memory TCP listener and (a sample) a real UDP loopback socket;
         observed: handler invocations (count, request), MsgInvalidFunc calls, octets written back.
-        Gen_Admission "route": 64 pattern subsets x 18 names (+ no question) x {A, DS, NS} x request flavours ->
-        ServeMux.ServeDNS with a recording writer, every 5th also through a real server.
+        Gen_Admission "route": 64 pattern subsets x 21 names (+ no question; DS names up to 3 labels below the closest
+        pattern) x {A, DS, NS} x request flavours -> the life of a ServeMux: a request while nothing was ever registered,
+        the registrations, the request, the removals, a request on the emptied mux; every 5th also through a real server.
+        Every call the harness waits for runs under a watchdog: a call that does not return within 45 s is the verdict
+        `.../hang:<call>` (the harness prints its summary and ends), never a stuck run.
 TV      `admission record pkt`: random / mutated queries through the three transports -> Trace_Admission (trichotomy, policy
         recomputed from the header, LibReply, exactly-once totals).  `admission record mux`: 8 goroutines doing
         Handle/HandleRemove/ServeDNS with call/return sequence numbers -> Trace_Admission (each dispatch explained by a
